@@ -50,6 +50,47 @@ func TestVerif_C03(t *testing.T) {
 			}
 		}
 	}
+	// the existence decision must come from the filesystem, not from a cached "not found"
+	for how := uint32(0); how < 3; how++ {
+		for _, sz := range []int{-1, 0} {
+			fs := refs.New()
+			fs.PlantDir("/d", 0755, 0, 0)
+			srv, err := vfNewSrv(fs, ExportOptions{AttrCacheTimeout: time.Hour, CacheNegativeLookups: true, NegativeCacheTimeout: time.Hour, EnableDirCache: true})
+			if err != nil {
+				rec.Infra(err.Error())
+				return
+			}
+			c := srv.client()
+			root, _ := c.mnt("/")
+			lr, _ := c.lookup(root, "d")
+			if lr == nil || lr.Status != 0 {
+				rec.Infra("lookup d")
+				return
+			}
+			dir := vfFH(lr.FH)
+			c.lookup(dir, "x") // NOENT, remembered by the negative cache
+			c.readdir(dir, 0, 4096)
+			fs.PlantFile("/d/x", []byte("written behind the server's back"), 0644, 5, 6)
+			fs.PlantFile("/d/other", []byte("other-data"), 0644, 0, 0)
+			var sa xdrw.Sattr3
+			if sz >= 0 && how != 2 {
+				sa.Size = xdrw.U64p(uint64(sz))
+			}
+			before := fs.Snapshot()
+			rec.Eval(1)
+			desc := fmt.Sprintf("mode=%s size=%d existing=file created out of band after a negatively cached LOOKUP", vfC03Modes[how], sz)
+			r, err := c.create(dir, "x", how, sa, [8]byte{9})
+			if err == nil && r != nil {
+				szArg := sz
+				if how == 2 {
+					szArg = -1
+				}
+				vfC03Judge(rec, desc, how, "file", szArg, false, r, before, fs.Snapshot())
+				rec.Distinct(fmt.Sprintf("out-of-band|%s|size=%d|st=%d", vfC03Modes[how], sz, r.Status))
+			}
+			srv.Close()
+		}
+	}
 	rec.Set("matrix_cases", n)
 	hist := evid.Pick(60, 3000)
 	for ep := 0; ep < hist && rec.Violations() < 40; ep++ {
